@@ -22,7 +22,9 @@ class Loop:
     decreases: str | None = None
     unroll: bool = False  # iterate a concretely known iterable completely (complete, not bounded)
     elem_ty: str | None = None  # element sort for cutting a loop over a concretely known list (e.g. "Str")
-    ghost_modifies: list | None = None  # ghost variables the body may change (None: all of them)
+    ghost_modifies: list | None = None
+    iter_init: dict = field(default_factory=dict)  # ghost name -> python value assigned at the start of every iteration
+    iter_post: dict = field(default_factory=dict)  # label -> clause checked at the normal end of every iteration  # ghost variables the body may change (None: all of them)
 
 
 @dataclass
